@@ -2,7 +2,7 @@
 # confirms a seeded change in a scratch worktree: compiles, suite passes with it, demo fails with it and passes without it
 id=$1; wt=/tmp/seedcheck; s=/verif/seeded/$id
 export GOFLAGS=-mod=mod GOPROXY=off GOSUMDB=off GOTOOLCHAIN=local
-race=""; case $id in C05|C15|C05c) race="-race";; esac
+race=""; case $id in C05|C15|C05c|C05d) race="-race";; esac
 demo=seed_demo_test.go; [ -f $s/demo_path.txt ] && demo=$(cat $s/demo_path.txt)
 pkg=./$(dirname $demo)
 cd $wt && git checkout -q -- . && git clean -fdq
